@@ -74,6 +74,11 @@ func verifSessionEvent(s *Server, kind string, strm any, sess *sessionTracker, a
 		kind, strm, sess, att, src, dst, a, b, sess.seqno, verifAtt(sess.peerA), verifAtt(sess.peerB), verifSnapshot(s)))
 }
 
+// verifSessionReject records a request rejected before any critical section.
+func verifSessionReject(kind string, strm any, why string) {
+	verifEmit(fmt.Sprintf("ev=%s call=%p why=%s", kind, strm, why))
+}
+
 func verifListenEvent(s *Server, kind string, strm any, tkr *serverPeerTracker, pid string, nonce uint64, want, notWant string) {
 	var wants []string
 	for w := range tkr.wantPeers {
